@@ -385,7 +385,8 @@ def _basic_for(spec, rng, res):
                 res.violation(e.key, str(e), ['for', a, b, c])
                 continue
             code, line = harness.err_of(out)
-            body = out.split(b'E')[0] if not code else out.split(b'\r\n')[0]
+            # printed values wrap at the screen width: take everything before the end marker / error message
+            body = out.split(b'E')[0] if not code else out.split(b'Overflow')[0]
             try:
                 got_vals = [int(t) for t in body.replace(b'Overflow', b' ').split() if t.lstrip(b'-').isdigit()]
             except ValueError:
